@@ -2216,4 +2216,352 @@ theorem per_chromosome_values (stranded : Bool) (sizes : List Nat) (ivs peaks : 
   omega
 
 
+
+/-! ## characterisations in plain list vocabulary, completeness (iff) and chunk-independence corollaries -/
+
+section runsChar
+variable {α κ : Type} [DecidableEq κ]
+
+/-- `runs` loses and reorders nothing: the groups concatenated are the data -/
+theorem runs_flatten (key : α → κ) (l : List α) : ((runs key l).map (·.2)).flatten = l := by
+  induction l with
+  | nil => rfl
+  | cons a as ih =>
+    simp only [runs]
+    cases h : runs key as with
+    | nil => rw [h] at ih; simp at ih ⊢; exact ih
+    | cons q r =>
+      obtain ⟨k, g⟩ := q
+      rw [h] at ih
+      by_cases hk : key a = k
+      · simp only [hk, ↓reduceIte]; simp at ih ⊢; exact ih
+      · simp only [hk, ↓reduceIte]; simp at ih ⊢; exact ih
+
+/-- every entry of a group has the group's key -/
+theorem runs_group_key (key : α → κ) (l : List α) : ∀ p ∈ runs key l, ∀ x ∈ p.2, key x = p.1 := by
+  induction l with
+  | nil => simp [runs]
+  | cons a as ih =>
+    simp only [runs]
+    cases h : runs key as with
+    | nil => intro p hp x hx; simp at hp; subst hp; simp at hx; subst hx; rfl
+    | cons q r =>
+      obtain ⟨k, g⟩ := q
+      rw [h] at ih
+      by_cases hk : key a = k
+      · simp only [hk, ↓reduceIte]
+        intro p hp x hx
+        simp only [List.mem_cons] at hp
+        rcases hp with rfl | hp
+        · simp only [List.mem_cons] at hx
+          rcases hx with rfl | hx
+          · exact hk
+          · exact ih (k, g) (by simp) x hx
+        · exact ih p (by simp [hp]) x hx
+      · simp only [hk, ↓reduceIte]
+        intro p hp x hx
+        simp only [List.mem_cons] at hp
+        rcases hp with rfl | hp
+        · simp at hx; subst hx; rfl
+        · exact ih p (by simpa using hp) x hx
+
+/-- neighbours differ -/
+def AdjNe : List κ → Prop
+  | a :: b :: r => a ≠ b ∧ AdjNe (b :: r)
+  | _ => True
+
+/-- neighbouring groups have different keys (the runs are maximal) -/
+theorem runs_adjacent_ne (key : α → κ) (l : List α) : AdjNe ((runs key l).map (·.1)) := by
+  induction l with
+  | nil => simp [runs, AdjNe]
+  | cons a as ih =>
+    simp only [runs]
+    cases h : runs key as with
+    | nil => simp [AdjNe]
+    | cons q r =>
+      obtain ⟨k, g⟩ := q
+      rw [h] at ih
+      by_cases hk : key a = k
+      · simpa [hk] using ih
+      · simp only [hk, ↓reduceIte, List.map_cons] at ih ⊢
+        exact ⟨hk, ih⟩
+
+end runsChar
+
+/-! ### the reductions: entries, lengths, and when they raise -/
+
+theorem bincount_getElem? (ml : Nat) (c : List Nat) (v : Nat) :
+    (bincount ml c)[v]? = if v < max (size c) ml then some (c.count v) else none := by
+  by_cases h : v < max (size c) ml <;> simp [bincount, h]
+
+/-- `size` is one more than the largest value: every value is below it and it is attained -/
+theorem size_spec (c : List Nat) : (∀ x ∈ c, x < size c) ∧ (c ≠ [] → ∃ x ∈ c, x + 1 = size c) := by
+  induction c with
+  | nil => simp [size]
+  | cons a t ih =>
+    simp only [size, List.foldr_cons] at ih ⊢
+    refine ⟨?_, fun _ => ?_⟩
+    · intro x hx
+      simp only [List.mem_cons] at hx
+      rcases hx with rfl | hx
+      · omega
+      · have := ih.1 x hx; omega
+    · by_cases ht : t = []
+      · subst ht; exact ⟨a, by simp, by simp⟩
+      · obtain ⟨x, hx, hs⟩ := ih.2 ht
+        by_cases hle : a + 1 ≤ List.foldr (fun x acc => max (x + 1) acc) 0 t
+        · exact ⟨x, by simp [hx], by omega⟩
+        · exact ⟨a, by simp, by omega⟩
+
+theorem histogram_getElem? (e : List Int) (c : List Int) (i : Nat) (h : i + 1 < e.length) :
+    (histogram e c)[i]? = some (c.countP (inBin e i)) := by
+  have : i < e.length - 1 := by omega
+  simp [histogram, this]
+
+/-- the streamed bincount raises (`reduce` of an empty sequence) exactly on the empty stream -/
+theorem bincountStream_none_iff (ml : Nat) (cs : List (List Nat)) : bincountStream ml cs = none ↔ cs = [] := by
+  cases cs with
+  | nil => simp [bincountStream, reduce1]
+  | cons c t => simp [bincount_chunks ml (c :: t)]
+
+theorem histogramStream_none_iff (e : List Int) (cs : List (List Int)) : histogramStream e cs = none ↔ cs = [] := by
+  cases cs with
+  | nil => simp [histogramStream, histogramReduce]
+  | cons c t => simp [histogram_chunks e (c :: t)]
+
+/-- the result depends on the data only, not on how it was cut (for two non-empty streams of the same data) -/
+theorem bincount_chunking_independent (ml : Nat) (cs cs' : List (List Nat)) (h : cs.flatten = cs'.flatten)
+    (h1 : cs ≠ []) (h2 : cs' ≠ []) : bincountStream ml cs = bincountStream ml cs' := by
+  rw [bincount_chunks ml cs h1, bincount_chunks ml cs' h2, h]
+
+theorem histogram_chunking_independent (e : List Int) (cs cs' : List (List Int)) (h : cs.flatten = cs'.flatten)
+    (h1 : cs ≠ []) (h2 : cs' ≠ []) : histogramStream e cs = histogramStream e cs' := by
+  rw [histogram_chunks e cs h1, histogram_chunks e cs' h2, h]
+
+theorem mean_chunking_independent (cs cs' : List (List Int)) (h : cs.flatten = cs'.flatten) :
+    meanStream cs = meanStream cs' := by
+  rw [mean_chunks_partial, mean_chunks_partial, h]
+
+theorem groupby_chunking_independent {α κ : Type} [DecidableEq κ] [Inhabited α] (fast : Bool) (key : α → κ)
+    (cs cs' : List (List α)) (h : cs.flatten = cs'.flatten) (hcon : Contig (cs.flatten.map key)) :
+    groupbyStream fast key cs = groupbyStream fast key cs' := by
+  rw [groupby_chunks fast key cs.flatten cs rfl hcon, groupby_chunks fast key cs.flatten cs' h.symm hcon]
+
+/-! ### re-chunking: when it raises, independence of the incoming cut, idempotence -/
+
+theorem chunkEntries_none_iff {α} (n : Nat) (cs : List (List α)) : chunkEntries n cs = none ↔ n = 0 := by
+  by_cases h : n = 0
+  · simp [chunkEntries, h]
+  · simp [chunkEntries, h]
+
+theorem chunkLines_none_iff {α} (n : Nat) (cs : List (List α)) : chunkLines n cs = none ↔ n = 0 := by
+  by_cases h : n = 0
+  · simp [chunkLines, h]
+  · simp [chunkLines, h]
+
+theorem rechunk_chunking_independent {α} (n : Nat) (hn : 0 < n) (cs cs' : List (List α)) (h : cs.flatten = cs'.flatten) :
+    chunkEntries n cs = chunkEntries n cs' ∧ chunkLines n cs = chunkLines n cs' := by
+  rw [rechunk_entries n hn, rechunk_entries n hn, rechunk_lines n hn, rechunk_lines n hn, h]
+  exact ⟨rfl, rfl⟩
+
+/-- re-chunking an already re-chunked stream to the same size changes nothing -/
+theorem rechunk_idempotent {α} (n : Nat) (hn : 0 < n) (cs out : List (List α)) (h : chunkEntries n cs = some out) :
+    chunkEntries n out = some out := by
+  rw [rechunk_entries n hn] at h ⊢
+  simp only [Option.some.injEq] at h
+  rw [← h, chop_flatten n hn]
+
+/-- the canonical cut, piece by piece: piece `i` holds entries `i*n … i*n+n-1` -/
+theorem chop_getElem? {α} (n : Nat) (hn : 0 < n) (xs : List α) (i : Nat) :
+    (chop n xs)[i]? = if i * n < xs.length then some ((xs.drop (i * n)).take n) else none := by
+  induction i generalizing xs with
+  | zero =>
+    by_cases hx : xs = []
+    · subst hx; simp [chop_nil]
+    · rw [chop_eq n hn xs hx]
+      have : 0 < xs.length := List.length_pos_iff.mpr hx
+      simp [this]
+  | succ i ih =>
+    by_cases hx : xs = []
+    · subst hx; simp [chop_nil]
+    · rw [chop_eq n hn xs hx, List.getElem?_cons_succ, ih (xs.drop n)]
+      have e : (i + 1) * n = n + i * n := by rw [Nat.add_mul]; omega
+      simp only [List.length_drop, List.drop_drop, e]
+      by_cases hlt : i * n < xs.length - n
+      · rw [if_pos hlt, if_pos (by omega)]
+      · rw [if_neg hlt, if_neg (by omega)]
+
+/-! ### k-mers -/
+
+theorem windows_length (k : Nat) (hk : 0 < k) (r : List Nat) : (windows k r).length = r.length + 1 - k := by
+  induction r with
+  | nil => simp [windows]; omega
+  | cons x xs ih =>
+    by_cases h : k ≤ xs.length + 1
+    · simp only [windows, List.length_cons, h, ↓reduceIte, ih]; omega
+    · simp only [windows, List.length_cons, h, ↓reduceIte, List.length_nil]; omega
+
+theorem windows_getElem? (k : Nat) (hk : 0 < k) (r : List Nat) (i : Nat) :
+    (windows k r)[i]? = if i + k ≤ r.length then some ((r.drop i).take k) else none := by
+  induction r generalizing i with
+  | nil => simp [windows]; omega
+  | cons x xs ih =>
+    simp only [windows]
+    by_cases h : k ≤ (x :: xs).length
+    · rw [if_pos h]
+      cases i with
+      | zero => simp only [List.length_cons] at h; simp [h]
+      | succ i =>
+        rw [List.getElem?_cons_succ, ih]
+        simp only [List.length_cons, List.drop_succ_cons] at h ⊢
+        by_cases h2 : i + k ≤ xs.length
+        · rw [if_pos h2, if_pos (by omega)]
+        · rw [if_neg h2, if_neg (by omega)]
+    · rw [if_neg h]
+      simp only [List.length_cons] at h ⊢
+      simp; omega
+
+
+
+section fastIff
+variable {α κ : Type} [DecidableEq κ]
+
+/-- what the first = last shortcut needs of one chunk: if the first and the last key agree, all keys agree -/
+def FastOK (key : α → κ) (c : List α) : Prop :=
+  (c.map key).head? = (c.map key).getLast? → ∀ x ∈ c, ∀ y ∈ c, key x = key y
+
+theorem groupbyChunk_eq_runs_of_fastOK [Inhabited α] (key : α → κ) (c : List α) (h : FastOK key c) :
+    groupbyChunk true key c = some (runs key c) := by
+  cases c with
+  | nil => rfl
+  | cons a t =>
+    simp only [groupbyChunk]
+    split
+    · rename_i hf
+      simp only [Bool.true_and, decide_eq_true_eq] at hf
+      have hall := h hf
+      rw [runs_const key (key a) (a :: t) (by simp) (fun x hx => hall x hx a (by simp))]
+      simp
+    · rw [sliceGroups_eq_runs key (a :: t) (by simp)]
+
+/-- the groups one chunk contributes, flattened to (key, entry) pairs -/
+theorem expand_groupbyChunk [Inhabited α] (key : α → κ) (c : List α) (gs : List (κ × List α))
+    (h : groupbyChunk true key c = some gs) :
+    (expand gs).map (·.2) = c ∧ (∀ p ∈ gs, p.2 ≠ []) ∧
+      (expand gs = c.map (fun x => (key x, x)) → FastOK key c) := by
+  cases c with
+  | nil =>
+    simp only [groupbyChunk, Option.some.injEq] at h
+    subst h
+    exact ⟨rfl, by simp, fun _ _ x hx => by simp at hx⟩
+  | cons a t =>
+    simp only [groupbyChunk] at h
+    split at h
+    · rename_i hf
+      simp only [Option.some.injEq] at h
+      subst h
+      refine ⟨by simp [expand, Function.comp_def], by simp, ?_⟩
+      intro he _ x hx y hy
+      have he' : ∀ z ∈ a :: t, (key a, z) = (key z, z) := by
+        have e : expand [(key (a :: t)[0]!, (a :: t).drop 0)] = (a :: t).map (fun x => (key a, x)) := by simp [expand]
+        rw [e] at he
+        exact List.map_inj_left.mp he
+      have hk : ∀ z ∈ a :: t, key a = key z := fun z hz => (Prod.mk.inj (he' z hz)).1
+      rw [← hk x hx, ← hk y hy]
+    · rename_i hnf
+      simp only [Option.some.injEq] at h
+      rw [sliceGroups_eq_runs key (a :: t) (by simp)] at h
+      subst h
+      refine ⟨?_, runs_nonempty key _, ?_⟩
+      · rw [runs_eq_runsP, expand_runsP]; simp [Function.comp_def]
+      · intro _ hf
+        simp only [Bool.true_and, decide_eq_true_eq] at hnf
+        exact absurd hf hnf
+
+theorem omap_getElem?' {β γ} (f : β → Option γ) (l : List β) (r : List γ) (h : omap f l = some r) (j : Nat) :
+    r[j]? = (l[j]?).bind f := by
+  induction l generalizing r j with
+  | nil => simp at h; subst h; simp
+  | cons x xs ih =>
+    obtain ⟨b, bs, hb, hbs, rfl⟩ := omap_cons_eq_some f x xs r h
+    cases j with
+    | zero => simp [hb]
+    | succ j => simpa using ih bs hbs j
+
+theorem flatten_pieces_eq {β} : ∀ (A B : List (List β)), A.map List.length = B.map List.length →
+    A.flatten = B.flatten → A = B
+  | [], [], _, _ => rfl
+  | [], _ :: _, h, _ => by simp at h
+  | _ :: _, [], h, _ => by simp at h
+  | a :: A, b :: B, h, hf => by
+    simp only [List.map_cons, List.cons.injEq] at h
+    simp only [List.flatten_cons] at hf
+    obtain ⟨h1, h2⟩ := List.append_inj hf h.1
+    rw [h1, flatten_pieces_eq A B h.2 h2]
+
+/-- **completeness of group-by with the shortcut**: the streamed result is the runs of the whole data
+*exactly when* every chunk whose first and last key agree has one key only — contiguity of the keys
+(a sorted column) is sufficient, this is what is necessary. -/
+theorem groupby_fast_iff [Inhabited α] (key : α → κ) (cs : List (List α)) :
+    groupbyStream true key cs = some (runs key cs.flatten) ↔ ∀ c ∈ cs, FastOK key c := by
+  constructor
+  · intro h
+    -- the per-chunk groups exist
+    cases hom : omap (groupbyChunk true key) cs with
+    | none => simp [groupbyStream, hom] at h
+    | some gss =>
+      simp only [groupbyStream, hom, Option.some.injEq] at h
+      -- per chunk facts
+      have hper : ∀ i (h1 : i < cs.length) (h2 : i < gss.length), groupbyChunk true key cs[i] = some gss[i] := by
+        intro i h1 h2
+        have := omap_getElem?' _ cs gss hom i
+        rw [List.getElem?_eq_getElem h2, List.getElem?_eq_getElem h1] at this
+        simpa using this.symm
+      have hlen : gss.length = cs.length := omap_length _ _ _ hom
+      have hne : ∀ p ∈ gss.flatten, p.2 ≠ [] := by
+        intro p hp
+        obtain ⟨gs, hgs, hpg⟩ := List.mem_flatten.mp hp
+        obtain ⟨i, hi, rfl⟩ := List.getElem_of_mem hgs
+        exact (expand_groupbyChunk key cs[i] gss[i] (hper i (by omega) hi)).2.1 p hpg
+      have he : expand gss.flatten = cs.flatten.map (fun x => (key x, x)) := by
+        have := congrArg expand h
+        rw [joinGroups_eq _ hne, expand_runsP, runs_eq_runsP, expand_runsP] at this
+        exact this
+      -- piecewise
+      have hpieces : gss.map expand = cs.map (fun c => c.map (fun x => (key x, x))) := by
+        apply flatten_pieces_eq
+        · apply List.ext_getElem
+          · simp [hlen]
+          · intro i h1 h2
+            simp only [List.length_map] at h1 h2
+            simp only [List.map_map, List.getElem_map, Function.comp_apply, List.length_map]
+            have := (expand_groupbyChunk key cs[i] gss[i] (hper i h2 h1)).1
+            have := congrArg List.length this
+            simpa using this
+        · have e1 : (gss.map expand).flatten = expand gss.flatten := by
+            clear hom h hper hlen hne he
+            induction gss with
+            | nil => rfl
+            | cons g gs ih => simp [expand_append, ih]
+          rw [e1, he, List.map_flatten]
+      intro c hc
+      obtain ⟨i, hi, rfl⟩ := List.getElem_of_mem hc
+      have hi' : i < gss.length := by omega
+      have := congrArg (fun l => l[i]?) hpieces
+      simp only [List.getElem?_map, List.getElem?_eq_getElem hi, List.getElem?_eq_getElem hi', Option.map_some,
+        Option.some.injEq] at this
+      exact (expand_groupbyChunk key cs[i] gss[i] (hper i hi hi')).2.2 this
+  · intro h
+    have h1 : omap (groupbyChunk true key) cs = some (cs.map (runs key)) :=
+      omap_some_map _ _ _ (fun c hc => groupbyChunk_eq_runs_of_fastOK key c (h c hc))
+    simp only [groupbyStream, h1, join_runs]
+
+example : FastOK (fun x : Nat => x) [1, 1, 2] := by intro h; simp at h
+example : ¬ FastOK (fun x : Nat => x) [1, 2, 1] := by
+  intro h
+  have := h (by simp) 1 (by simp) 2 (by simp)
+  simp at this
+
+end fastIff
+
 end C11
